@@ -36,13 +36,22 @@ CLAIMED = {
   'design_ref': 'DESIGN.md section 5 C14',
   'note': 'Trusted: Verus/Z3; core::fmt renders the constrained arguments as documented (R5 sinks, slots derived mechanically from the format literal); nanoseconds_to_string opaque.',
  },
+ 'C09': {
+  'text': 'Verus proves on the real closure bodies and functions, for all values: and/or equal the three-valued truth tables with every non-boolean as null; '
+          'eval_ternary_equality returns true exactly for deeply equal values and, for every pair other than two contexts, equals a symmetric table (null = x is x = null); '
+          '= and != are each other\'s negation; < <= > >= on numbers, strings and dates are the order relations, with a < b == b > a, a <= b == b >= a, trichotomy and '
+          '<= == (< or =) as lemmas; between, in-range (open end = strict) and a <= x and x <= b agree; dates are totally ordered by (year, month, day).',
+  'design_ref': 'DESIGN.md section 5 C09',
+  'note': 'Trusted: Verus/Z3; number order is a strict total order (decimal128 comparison assumed); String order axioms; chrono-based time/date-time relations uninterpreted; '
+          'closure lifting R4 (wiring not decided). Context pairs with equal key sets and mixed unequal/incomparable entries are only partly decided.',
+ },
 }
 NOT_APPLICABLE = {
  'C01': TODO, 'C02': TODO, 'C03': TODO,
  'C04': 'the property is about dyn Fn closures stored in RwLock<HashMap> registries calling one another along the requirement graph; no first-order function carries it, Verus has no support for dyn Fn fields / std RwLock guards, Kani cannot bound the graph (DESIGN.md section 6)',
  'C05': TODO, 'C06': TODO,
  'C07': 'deciding code is str/format!/C decNumber string conversion (scientific_to_plain, decQuadToString); Verus has no specs for these str APIs and Kani/CBMC did not finish a 3-character instance in 15 min (DESIGN.md section 6)',
- 'C08': TODO, 'C09': TODO, 'C10': TODO, 'C11': TODO, 'C12': TODO, 'C13': TODO,
+ 'C08': TODO, 'C10': TODO, 'C11': TODO, 'C12': TODO, 'C13': TODO,
  'C18': TODO, 'C19': TODO,
  'C20': 'a schedule property: Kani has no thread support and Verus would need the code rewritten onto its own permission/atomic types; Send+Sync is checked by rustc, not by this family (DESIGN.md section 6)',
 }
